@@ -1177,8 +1177,7 @@ def shrink(bases, a, v, site, deadline):
 
 
 def search(res, rng, disagreements, pfail):
-  t0 = time.time()
-  budget = 150 if common.tier() == "quick" else 600
+  budget = 120 if common.tier() == "quick" else 400
   cands = []
   for d in disagreements:
     if "ann" in d and "val" in d:
@@ -1234,15 +1233,19 @@ def search(res, rng, disagreements, pfail):
   res.cov["search_pairs_tried"] = tried
   if not found and not pfail and disagreements and all(d.get("kind") == "real-code-timeout" for d in disagreements):
     raise common.Timeout("pytype did not finish %d generated module(s); no verdict" % len(disagreements))
-  # shrink the smallest few to a single (annotation, value, site)
+  # shrink the smallest few to a single (annotation, value, site); the budget covers shrinking only, and a failing
+  # input is reported unshrunk when it is used up
+  t1 = time.time()
   real_found = [f for f in found if "ann" in f]
   real_found.sort(key=lambda f: len(ann_py(f["ann"])) + len(val_py(f["val"])))
   out = [f for f in found if "ann" not in f][:1]
   seen = set()
   for f in real_found:
-    if len(out) >= 3 or time.time() - t0 > budget:
+    if len(out) >= 3:
       break
-    a, v = shrink(f["bases"], f["ann"], f["val"], f["site"], t0 + budget)
+    a, v = f["ann"], f["val"]
+    if time.time() - t1 < budget:
+      a, v = shrink(f["bases"], a, v, f["site"], t1 + budget)
     key = (ann_py(a), val_py(v), f["site"])
     if key in seen:
       continue
